@@ -23,6 +23,7 @@ rendered through DictLoader and CachingDictLoader, sync and async (4 renders).
 from __future__ import annotations
 
 import asyncio
+import copy
 import itertools
 import os
 import re
@@ -734,6 +735,39 @@ class C08(Prop):
                     got[f"caching/then:{other}"] = self._render(env, other, data, "sync")
                 got["caching/again"] = self._render(env, entry, data, "async")
                 res.labels.append("cached-history")
+        if kind == "ok" and digest(case) % 3 == 0 and templates[entry].get("extends") is not None \
+                and not any(t.get("pre") for t in templates.values()):
+            # the chain is resolved at every render: the parents are edited between two renders of ONE leaf
+            # Template object (a plain dict loader serves whatever its mapping holds now)
+            edited = copy.deepcopy(templates)
+            for n, tm in edited.items():
+                if n == entry:
+                    continue
+                for node in tm["body"]:
+                    if node[0] == "b":
+                        node[3].append(["t", "<e:" + n + ">"])
+                tm["body"].append(["t", "<ed:" + n + ">"])
+            ex = resolve(edited, entry, data)
+            if ex[0] == "ok":
+                loader = DictLoader(dict(srcs))
+                env = make_env(loader=loader, limits={"output_stream_limit": OUTPUT_LIMIT})
+                try:
+                    leaf = env.get_template(entry)
+                    leaf.render(**data)
+                    run_coro(leaf.render_async(**data))
+                    loader.templates.update({n: t for n, t in sources(edited).items() if n != entry})
+                    for mode in ("sync", "async"):
+                        expects[f"dict/edited-parents:{mode}"] = ex
+                        try:
+                            got[f"dict/edited-parents:{mode}"] = (
+                                "ok", leaf.render(**data) if mode == "sync" else run_coro(leaf.render_async(**data)))
+                        except LiquidError as err:
+                            got[f"dict/edited-parents:{mode}"] = ("err", err)
+                        except Exception as err:  # noqa: BLE001
+                            got[f"dict/edited-parents:{mode}"] = ("crash", err)
+                    res.labels.append("edited-parents")
+                except LiquidError:
+                    pass
         if (digest(case) % 5 == 0 or kind == "err") and all(_fs_safe(n) for n in srcs):
             # loaders that name a template by its resolved path, not by the name written in `extends`
             with tempfile.TemporaryDirectory(prefix="lv-c08-") as tmp:
@@ -804,6 +838,10 @@ class C08(Prop):
                         add("text-before-extends-rendered", "resolution", mode,
                             f"text in front of `extends` in a child template was output: expected {want_m!r}, "
                             f"got {g_val!r}")
+                    elif g_val != want_m and own and mode.startswith("dict/edited-parents"):
+                        add("output-mismatch:edited-parents", "resolution", mode,
+                            f"the parents were edited between two renders of one leaf Template object (dict loader): "
+                            f"expected {want_m!r}, got {g_val!r}")
                     elif g_val != want_m and own:
                         add("output-mismatch:cached-history", "resolution", mode,
                             f"after the entry was rendered on the same caching environment: expected {want_m!r}, got {g_val!r}")
